@@ -18,6 +18,8 @@ type rgRunner struct {
 	alive      map[int]bool  // registered and not eliminated
 	nextTbl    int
 	nextPid    int
+	reentry    *Rng     // generator runs only
+	busted     []int    // players eliminated in this history: candidates for a re-entry (the regulator knows names, not identities)
 	calls      []string // callbacks of the current operation
 	choices    []string // table ids picked by getAvailableTable during the current operation
 	handed     []int    // ids handed out (callbacks / SyncState result) during the current operation
@@ -101,6 +103,7 @@ func (g *rgRunner) newRG(max, min int) {
 	g.async, g.inflight, g.delayNext = false, map[int][]int{}, false
 	g.syncNow, g.brokenIDs, g.brokenWay, g.nilBatch, g.tourney, g.inOp, g.pending = false, nil, map[int]bool{}, false, false, false, nil
 	g.registered = 0
+	g.busted = nil
 	g.calls, g.choices, g.handed = nil, nil, nil
 	// the two settings in either order (it depends on the settings themselves, so that a history replays the same way)
 	first, second := regulator.MaxPlayersPerTable(max), regulator.MinInitialPlayers(min)
@@ -602,6 +605,7 @@ func (g *rgRunner) sync1(t int, out int, rng *Rng) bool {
 			}
 			elim = append(elim, ms[i])
 			delete(g.alive, ms[i])
+			g.busted = append(g.busted, ms[i])
 			ms = append(ms[:i], ms[i+1:]...)
 		}
 		g.members[t] = ms
@@ -978,6 +982,15 @@ func (g *rgRunner) lookahead(lines []string, k int, t string) {
 func (g *rgRunner) batch(cnt int) {
 	ids := []int{}
 	for j := 0; j < cnt; j++ {
+		if n := len(g.busted); n > 0 && g.reentry != nil && g.reentry.Chance(0.12) {
+			// a RE-ENTRY: a player who was eliminated registers again under the same name; to the regulator he is a registrant like
+			// any other (C09: "every registered player who has not been eliminated …" — he is one again)
+			k := g.reentry.Intn(n)
+			ids = append(ids, g.busted[k])
+			g.busted = append(g.busted[:k], g.busted[k+1:]...)
+			g.o.Count("rg.reentries")
+			continue
+		}
 		g.nextPid++
 		ids = append(ids, g.nextPid)
 	}
@@ -1262,6 +1275,7 @@ func runRG(dir string, seed uint64, n int) {
 			backP = 0.25 // a history in which the status may go back to pending (C09 only)
 		}
 		g.newRG(max, min)
+		g.reentry = NewRng(uint64(it)*7919 + seed)
 		if asyncH {
 			g.async = true
 			o.Count("rg.async_histories")
